@@ -40,14 +40,14 @@ def addBackRow : List Nat → List Nat → Nat → Nat → List Nat × Nat
     (s.1 :: r.1, r.2)
   | _, _, _, carry => ([], carry)
 
+/-- `(_, borrow) = x_hi.sbb(carry, borrow)` after the multiply-subtract row, as `ct_borrow`. -/
+def knuthBorrow (xs ys : List Nat) (xHi quo : Nat) : Nat :=
+  fromWordMask (sbb xHi (mulSubRow xs ys quo 0 0).2.1 (mulSubRow xs ys quo 0 0).2.2).2
+
 /-- multiply-subtract, final `x_hi.sbb(carry, borrow)`, masked add-back:
     returns `(row after add-back, ct_borrow)`. -/
 def knuthRow (xs ys : List Nat) (xHi quo : Nat) : List Nat × Nat :=
-  let r1 := mulSubRow xs ys quo 0 0
-  let borrow := (sbb xHi r1.2.1 r1.2.2).2
-  let ctBorrow := fromWordMask borrow
-  let r2 := addBackRow r1.1 ys ctBorrow 0
-  (r2.1, ctBorrow)
+  ((addBackRow (mulSubRow xs ys quo 0 0).1 ys (knuthBorrow xs ys xHi quo) 0).1, knuthBorrow xs ys xHi quo)
 
 /-! ### constant-time `Uint::div_rem` / `BoxedUint::div_rem_unchecked` -/
 
